@@ -5,11 +5,11 @@ import json, os, re, shutil, subprocess, sys, tempfile
 
 VERIF = os.path.dirname(os.path.dirname(os.path.abspath(__file__)))
 rows = []
-for SEED, pid in sorted((root, pid) for root in ("/tmp/seed", "/tmp/seed2", "/tmp/seed3", "/tmp/seed4") if os.path.isdir(root) for pid in os.listdir(root)):
+for SEED, pid in sorted((root, pid) for root in ("/tmp/seed", "/tmp/seed2", "/tmp/seed3", "/tmp/seed4", "/tmp/seed5") if os.path.isdir(root) for pid in os.listdir(root)):
     out = os.path.join(SEED, pid, "out")
     if not os.path.isdir(out):
         continue
-    for v in ("A", "B", "C", "D", "E", "F", "G", "H"):
+    for v in ("A", "B", "C", "D", "E", "F", "G", "H", "I", "J"):
         conf = os.path.join(out, v + ".confirm.json")
         if not os.path.exists(conf):
             continue
